@@ -156,6 +156,11 @@ CONTROLS = [
          '                        if let Ok(Some((p, _, _))) = resolve_text_macro_usage(\n                            x,\n                            s,\n                            path.as_ref(),', 1)]),
     ('x14-define-skipped-when-same-text', 'X14', 'syn', 'write-conditional:define', [(PPF, '                    defines.insert(id, Some(define));',
         '                    let same = matches!(defines.get(&id), Some(Some(prev)) if prev.arguments == define.arguments);\n                    if !same {\n                        defines.insert(id, Some(define));\n                    }', 1)]),
+    ('g22-line-comment-stops-at-cr', 'G22', 'syn', 'one_line_comment:partial-closer-ends-body', [(PARSER + 'general/comments.rs',
+        '    let (s, b) = opt(is_not("\\n"))(s)?;\n    let (s, c) = opt(tag("\\n"))(s)?;',
+        '    let (s, b) = opt(is_not("\\r\\n"))(s)?;\n    let (s, c) = opt(alt((tag("\\r\\n"), tag("\\n"))))(s)?;', 1)]),
+    ('g22-block-comment-star-unguarded', 'G22', 'syn', 'block_comment:guard-mismatch', [(PARSER + 'general/comments.rs',
+        'terminated(tag("*"), peek(not(tag("/")))),', 'terminated(tag("*"), peek(not(tag("*")))),', 1)]),
     ('s1-version-stack-not-reset', 'S1', 'mir', 'not-reset:CURRENT_VERSION', [(PARSER + 'lib.rs', '    clear_directive();\n    clear_version();\n}', '    clear_directive();\n}', 1)]),
     ('s2-grammar-function-exported', 'S2', 'mir', 'source_text', [(PARSER + 'source_text/system_verilog_source_text.rs', 'pub(crate) fn source_text(s: Span)', 'pub fn source_text(s: Span)', 1)]),
     ('s3-scope-leak-on-error-path', 'S3', 'mir', 'text_macro_usage:unbalanced', [(CD,
